@@ -623,6 +623,9 @@ def lod_history(inp, W):
     r = None
     for st in inp["steps"]:
         t = st["target"]; m = st["method"]
+        if st is inp["steps"][-1]:
+            # what every list holds just before the edit (identity of the values under each key)
+            before = [None if x is None else [(list(it.keys()), [it[k] for k in it]) for it in list.__iter__(x)] for x in nodes]
         if st.get("release"):
             # method chains: the program keeps no name for these lists any more (x.filter(...).sort(...).modify(...))
             r = None
@@ -630,6 +633,9 @@ def lod_history(inp, W):
             import gc; gc.collect()
         if m == "copy": r = use(t, lambda x: x.copy())
         elif m == "deepcopy": r = use(t, lambda x: x.deepcopy())
+        elif m == "ctor": r = use(t, lambda x: di.ListOfDicts(x))                 # a new list from the items: the constructor makes new dicts
+        elif m == "ctor_gen": r = use(t, lambda x: di.ListOfDicts(item for item in x))
+        elif m == "map_identity": r = use(t, lambda x: x.map(lambda item: item))
         elif m == "filter": r = use(t, lambda x: x.filter(lambda item: True))
         elif m == "filter_out": r = use(t, lambda x: x.filter_out(lambda item: False))
         elif m == "sort": r = use(t, lambda x: x.sort(id=1))
@@ -657,6 +663,11 @@ def lod_history(inp, W):
         else: raise RuntimeError(m)
         nodes.append(r); warnings.append(0)
     flags = [None if x is None else bool(list.__getattribute__(x, "_obsolete")) for x in nodes]
+    unchanged = []
+    for x, b in zip(nodes, before):
+        if x is None or b is None: unchanged.append(None); continue
+        now = [(list(it.keys()), [it[k] for k in it]) for it in list.__iter__(x)]
+        unchanged.append(len(now) == len(b) and all(k1 == k0 and len(v1) == len(v0) and all(p is q for p, q in zip(v1, v0)) for (k1, v1), (k0, v0) in zip(now, b)))
     first = []; second = []
     import copy as _copy
     how = inp.get("first_use", "named")
@@ -666,7 +677,7 @@ def lod_history(inp, W):
         w0 = warnings[i]; use(i, uses[how]); first.append(warnings[i] - w0)
     for i in range(len(nodes)):
         w0 = warnings[i]; use(i, lambda x: x.pluck); second.append(warnings[i] - w0)
-    res = {"flags": flags, "warnings_total": list(warnings), "second_use": second, "first_use": first}
+    res = {"flags": flags, "warnings_total": list(warnings), "second_use": second, "first_use": first, "unchanged": unchanged}
     if inp.get("late"):
         # a list derived after the edit (possibly from a list that is obsolete by now), then an edit through it
         t = inp["late"]["target"]; m = inp["late"]["method"]
